@@ -26,6 +26,7 @@ from collections import OrderedDict
 import yaml
 from pybtex.database import Entry, Person
 from pybtex.database.input import BaseParser
+from pybtex.exceptions import PybtexError
 
 
 class OrderedDictSafeLoader(yaml.SafeLoader):
@@ -71,23 +72,49 @@ class Parser(BaseParser):
     unicode_io = True
 
     def parse_stream(self, stream):
-        t = yaml.load(stream, Loader=OrderedDictSafeLoader)
-
-        entries = (
-            (key, self.process_entry(entry))
-            for (key, entry) in t['entries'].items()
-        )
+        try:
+            t = yaml.load(stream, Loader=OrderedDictSafeLoader)
+        except yaml.YAMLError as error:
+            raise PybtexError('YAML syntax error: {0}'.format(error), filename=self.filename)
 
         try:
-            self.data.add_to_preamble(t['preamble'])
-        except KeyError:
-            pass
+            items = t['entries'].items()
+            preamble = t.get('preamble')
+            if preamble is not None:
+                self.check_string(preamble, 'preamble')
+        except (AttributeError, KeyError, TypeError) as error:
+            raise self.structure_error(error)
+
+        entries = (self.checked_entry(key, entry) for (key, entry) in items)
+
+        if preamble is not None:
+            self.data.add_to_preamble(preamble)
 
         self.data.add_entries(entries)
         return self.data
 
+    def structure_error(self, error):
+        # the document is YAML but not a bibliography: no "entries" mapping,
+        # an entry without "type", persons that are not lists of name parts...
+        return PybtexError(
+            'invalid bibliography structure ({0}: {1})'.format(type(error).__name__, error),
+            filename=self.filename,
+        )
+
+    @staticmethod
+    def check_string(value, what):
+        if not isinstance(value, str):
+            raise TypeError('{0} must be a string, not {1!r}'.format(what, value))
+        return value
+
+    def checked_entry(self, key, entry):
+        try:
+            return self.check_string(key, 'entry key'), self.process_entry(entry)
+        except (AttributeError, KeyError, TypeError, ValueError) as error:
+            raise self.structure_error(error)
+
     def process_entry(self, entry):
-        bib_entry = Entry(entry['type'])
+        bib_entry = Entry(self.check_string(entry['type'], 'entry type'))
         for (key, value) in entry.items():
             key_lower = key.lower()
             if key_lower in Person.valid_roles:
